@@ -94,7 +94,27 @@ fn show_rank(r: &Rank) -> String {
     r.iter().map(|x| x.to_string()).collect::<Vec<_>>().join(",")
 }
 
+/// an item whose matching is limited to the byte range starting at the middle character (what --nth does to a line)
+struct RItem {
+    text: String,
+    ranges: Vec<(usize, usize)>,
+}
+
+impl SkimItem for RItem {
+    fn text(&self) -> Cow<str> {
+        Cow::Borrowed(&self.text)
+    }
+    fn get_matching_ranges(&self) -> Option<&[(usize, usize)]> {
+        Some(&self.ranges)
+    }
+}
+
 fn run_engine(opt: &str, kind: &str, query: &str, text: &str) -> String {
+    // `<engine>@`: the same engine on an item with a matching range that starts after column 0
+    let (kind, ranged) = match kind.strip_suffix('@') {
+        Some(k) => (k, true),
+        None => (kind, false),
+    };
     let opt = match opt_of(opt) {
         Ok(o) => o,
         Err(e) => return e,
@@ -110,7 +130,12 @@ fn run_engine(opt: &str, kind: &str, query: &str, text: &str) -> String {
         (Some(a), Some(b)) => (a, b),
         _ => return "error:bad-engine".into(),
     };
-    let item: Arc<dyn SkimItem> = Arc::new(text.to_string());
+    let item: Arc<dyn SkimItem> = if ranged {
+        let mid = text.char_indices().nth(text.chars().count() / 2).map(|(b, _)| b).unwrap_or(0);
+        Arc::new(RItem { text: text.to_string(), ranges: vec![(mid, text.len())] })
+    } else {
+        Arc::new(text.to_string())
+    };
     match (e1.match_item(item.clone()), e2.match_item(item)) {
         (None, None) => "nomatch".into(),
         (Some(r), Some(p)) => {
